@@ -5,7 +5,7 @@
 -/
 import GoldilocksVerif.Lemmas.HeapSafeVCL
 import GoldilocksVerif.Lemmas.HeapSafeDefs
-import GoldilocksVerif.Lemmas.BridgeNttRevPerm
+import GoldilocksVerif.Lemmas.BridgeNttRevPermG
 open GoldilocksVerif Gen.NttGen GoldilocksVerif.BridgeNtt
 namespace GoldilocksVerif.HeapSafe
 
@@ -13,50 +13,6 @@ section bodies
 variable (dst src : Ptr) (oc nc nca : BitVec 64) (ds : BitVec 32) (k size : Nat)
 variable (hk : k ≤ 32) (hds : ds.toNat = k) (hsz : size = 2 ^ k)
 variable (hb1 : size * nca.toNat + oc.toNat < 2 ^ 64) (hb2 : size * nc.toNat < 2 ^ 64) (hb3 : nc.toNat * 8 < 2 ^ 64)
-
-include hk hds hsz hb1 hb2 hb3 in
-/-- destination distinct from the source, extension ≤ 1: row i of the destination, columns [oc, oc+nc) of row br(i) of the source -/
-theorem rp1_safe (hcols : oc.toNat + nc.toNat ≤ nca.toNat) (st : Heap)
-    (hdst : dst.off + size * nc.toNat ≤ st.ext dst.blk) (hsrc : src.off + size * nca.toNat ≤ st.ext src.blk)
-    (hdisj : dst.blk ≠ src.blk) (i : Nat) (hi : i < size) :
-    NTT_reversePermutation_loop1.Safe dst src oc nc nca ds i st := by
-  unfold NTT_reversePermutation_loop1.Safe
-  zeta_goal
-  rw [src_off oc nca ds k size hk hds hsz hb1 i hi, dst_off nc k size hk hsz hb2 i hi, words_toNat nc hb3]
-  obtain ⟨_, hlt⟩ := BR_i ds k size hk hds hsz i hi
-  have h1 := mul_le_of_lt _ _ nc.toNat hi
-  have h2 := mul_le_of_lt _ _ nca.toNat hlt
-  refine ⟨?_, ?_, Or.inr (Or.inl hdisj)⟩
-  · show dst.off + i * nc.toNat + nc.toNat ≤ st.ext dst.blk
-    omega
-  · show src.off + (Model.Ntt.br i k * nca.toNat + oc.toNat) + nc.toNat ≤ st.ext src.blk
-    omega
-
-include hk hds hsz hb1 hb2 hb3 in
-/-- destination distinct, extension > 1: a source row is read only when it is one of the first `size / extension` rows -/
-theorem rp2_safe (hcols : oc.toNat + nc.toNat ≤ nca.toNat) (ext_ : BitVec 64) (rows : Nat) (hrows : ext_.toNat = rows * nca.toNat)
-    (st : Heap) (hdst : dst.off + size * nc.toNat ≤ st.ext dst.blk) (hsrc : src.off + rows * nca.toNat ≤ st.ext src.blk)
-    (hdisj : dst.blk ≠ src.blk) (i : Nat) (hi : i < size) :
-    NTT_reversePermutation_loop2.Safe dst src oc nc nca ds ext_ i st := by
-  unfold NTT_reversePermutation_loop2.Safe
-  zeta_goal
-  rw [src_off oc nca ds k size hk hds hsz hb1 i hi, dst_off nc k size hk hsz hb2 i hi, words_toNat nc hb3]
-  have h1 := mul_le_of_lt _ _ nc.toNat hi
-  have hd : st.RangeOK (dst.add (i * nc.toNat)) nc.toNat := by
-    show dst.off + i * nc.toNat + nc.toNat ≤ st.ext dst.blk
-    omega
-  refine ⟨fun hc => ⟨hd, ?_, Or.inr (Or.inl hdisj)⟩, fun _ => hd⟩
-  have hc' := of_decide_eq_true hc
-  rw [BitVec.lt_def, src_off oc nca ds k size hk hds hsz hb1 i hi, hrows] at hc'
-  -- br(i) * nca + oc < rows * nca  ⇒  br(i) < rows
-  have hr : Model.Ntt.br i k < rows := by
-    rcases Nat.lt_or_ge (Model.Ntt.br i k) rows with h | h
-    · exact h
-    · have := Nat.mul_le_mul_right nca.toNat h
-      omega
-  have h2 := mul_le_of_lt _ _ nca.toNat hr
-  show src.off + (Model.Ntt.br i k * nca.toNat + oc.toNat) + nc.toNat ≤ st.ext src.blk
-  omega
 
 end bodies
 
@@ -215,9 +171,16 @@ theorem reversePermutation_safe (fuel : Nat) (hf : log2Fuel ≤ fuel) (hp : Heap
     have he' : self.extension ≤ 1 := of_decide_eq_true he
     unfold srcRows at hsrc
     rw [if_pos he'] at hsrc
-    refine Loop.RangeAll.of_same (fun i s _ => rp_loop1_same _ _ _ _ _ _ i s) (fun i st _ hi hst => ?_)
-    exact rp1_safe dst src oc nc nca _ k size.toNat hk hds hsize hb1 hb2 hb3 hcols st (by rw [hst.2]; exact hdst)
-      (by rw [hst.2]; exact hsrc) (hdisj hne') i hi
+    refine Loop.RangeAll.of_same (fun i s _ => by loop_same) (fun i st _ hi hst => ?_)
+    -- row i of the destination, columns [oc, oc+nc) of row br(i) of the source (the body is taken as it is written)
+    obtain ⟨e, hlt⟩ := BR_i (BitVec.ofNat 32 k) k size.toNat hk hds hsize i hi
+    have h1 := mul_le_of_lt _ _ nc.toNat hi
+    have h2 := mul_le_of_lt _ _ nca.toNat hlt
+    have hiN : (BitVec.ofNat 64 i).toNat = i := ofNat_toNat_lt i (by have := size.isLt; omega)
+    unfold_loops
+    zeta_goal
+    refine ⟨?_, ?_, Or.inr (Or.inl (hdisj hne'))⟩
+    all_goals (unfold Heap.RangeOK; simp only [Ptr.add_blk, Ptr.add_off, hst.2]; bv_arith [e, hiN])
   · -- distinct, extension > 1
     have hne' : dst ≠ src := by simpa using hne
     have he' : ¬ self.extension ≤ 1 := fun x => he (decide_eq_true x)
@@ -228,18 +191,38 @@ theorem reversePermutation_safe (fuel : Nat) (hf : log2Fuel ≤ fuel) (hp : Heap
     have hE : (size / I32.toU64 self.extension * nca).toNat = (size / I32.toU64 self.extension).toNat * nca.toNat := by
       have := Nat.mul_le_mul_right nca.toNat hle
       rw [mul_toNat _ _ (by omega)]
-    refine Loop.RangeAll.of_same (fun i s _ => rp_loop2_same _ _ _ _ _ _ _ i s) (fun i st _ hi hst => ?_)
-    exact rp2_safe dst src oc nc nca _ k size.toNat hk hds hsize hb1 hb2 hb3 hcols _ _ hE st (by rw [hst.2]; exact hdst)
-      (by rw [hst.2]; exact hsrc) (hdisj hne') i hi
+    refine Loop.RangeAll.of_same (fun i s _ => by loop_same) (fun i st _ hi hst => ?_)
+    -- a source row is read only when it is one of the first `size / extension` rows
+    obtain ⟨e, hlt⟩ := BR_i (BitVec.ofNat 32 k) k size.toNat hk hds hsize i hi
+    have h1 := mul_le_of_lt _ _ nc.toNat hi
+    have h2 := mul_le_of_lt _ _ nca.toNat hlt
+    have hiN : (BitVec.ofNat 64 i).toNat = i := ofNat_toNat_lt i (by have := size.isLt; omega)
+    unfold_loops
+    zeta_goal
+    refine ⟨fun hc => ⟨?_, ?_, Or.inr (Or.inl (hdisj hne'))⟩, fun _ => ?_⟩
+    · unfold Heap.RangeOK; simp only [Ptr.add_blk, Ptr.add_off, hst.2]; bv_arith [e, hiN]
+    · have hc' : Model.Ntt.br i k * nca.toNat + oc.toNat < (size / I32.toU64 self.extension).toNat * nca.toNat := by
+        revert hc
+        simp only [decide_eq_true_eq, BitVec.lt_def, BitVec.toNat_add, BitVec.toNat_mul, e, hE]
+        intro hc
+        omega
+      have hr : Model.Ntt.br i k < (size / I32.toU64 self.extension).toNat := by
+        rcases Nat.lt_or_ge (Model.Ntt.br i k) (size / I32.toU64 self.extension).toNat with h | h
+        · exact h
+        · have := Nat.mul_le_mul_right nca.toNat h
+          omega
+      have h3 := mul_le_of_lt _ _ nca.toNat hr
+      unfold Heap.RangeOK; simp only [Ptr.add_blk, Ptr.add_off, hst.2]; bv_arith [e, hiN]
+    · unfold Heap.RangeOK; simp only [Ptr.add_blk, Ptr.add_off, hst.2]; bv_arith [e, hiN]
   · -- in place, extension ≤ 1
     have heq' : dst = src := by simpa using heq
     subst heq'
-    refine Loop.RangeAll.of_same (fun i s hsame => rp_loop3_same _ _ _ _ i s (hsame.size_pos hs)) (fun i st _ hi hst => ?_)
+    refine Loop.RangeAll.of_same (fun i s hsame => by have hpos' := hsame.size_pos hs; loop_same) (fun i st _ hi hst => ?_)
     exact rp3_safe dst nc _ k size.toNat hk hds hsize hb2 hb3 hnc st (by rw [hst.2]; exact hdst) i hi
   · -- in place, extension > 1
     have heq' : dst = src := by simpa using heq
     subst heq'
-    refine Loop.RangeAll.of_same (fun i s hsame => rp_loop4_same _ _ _ _ _ i s (hsame.size_pos hs)) (fun i st _ hi hst => ?_)
+    refine Loop.RangeAll.of_same (fun i s hsame => by have hpos' := hsame.size_pos hs; loop_same) (fun i st _ hi hst => ?_)
     exact rp4_safe dst nc _ k size.toNat hk hds hsize hb2 hb3 hnc _ st (by rw [hst.2]; exact hdst) i hi
 
 end GoldilocksVerif.HeapSafe
